@@ -342,6 +342,11 @@ def history_session(w, sc):
     w.functions = gtirb_functions.Function.build_functions(w.m)
     if len(w.functions) != 1:
         raise core.HarnessError("history session lost the function")
+    if sc["func"].get("amnesia"):
+        gtirb_rewriting.RewritingContext(w.m, [], logger=_logger(sc)).apply()
+        w.functions = gtirb_functions.Function.build_functions(w.m)
+        if len(w.functions) != 1:
+            raise core.HarnessError("intermediate session lost the function")
 
 
 # --------------------------------------------------------------------------
@@ -405,6 +410,11 @@ def gen_signals(r, params):
 def gen_func(r, abi, params):
     kind = r.choices(["leaf", "nonleaf", "none"], weights=[50, 35, 15])[0]
     f = {"kind": kind, "history": kind != "none" and r.random() < 0.3, "site": r.randrange(3), "pie": r.random() < 0.7}
+    if f["history"] and r.random() < 0.35:
+        # between the two sessions somebody rewrites the module with a
+        # context that was not told about the function (an empty function
+        # list): what the first session recorded about it must survive
+        f["amnesia"] = True
     if kind == "leaf" and not f["history"] and r.random() < 0.15:
         f["unlabelled_edge"] = True
     if kind == "nonleaf" and not f["history"] and r.random() < 0.25:
@@ -479,6 +489,10 @@ def gen_c16(seed, params):
     }
     if streams.get("gen.knob").random() < 0.1:
         sc["debug_log"] = True
+    if streams.get("gen.knob").random() < 0.1:
+        # the patch text ends in another section (a string or table of the
+        # patch's own): the epilogue still belongs behind the patch's code
+        sc["tail_section"] = True
     return sc
 
 
@@ -811,7 +825,7 @@ class Sim:
             if any(a not in ("LO12", "PLT") for a in attrs):
                 raise core.HarnessError(f"machsim: unsupported symbolic expression attributes {attrs}")
             link[off] = (e.symbol.name, e.offset, attrs)
-        if cap["sections"] != [".text"]:
+        if cap["sections"] != ([".data", ".text"] if sc.get("tail_section") else [".text"]):
             raise core.HarnessError(f"machsim: unexpected sections {cap['sections']}")
         self.cpu = mach_cpu.make_cpu(self.info["cpu"], self.mem, cap["data"], base, link, self.symaddr)
         cpu = self.cpu
@@ -927,6 +941,9 @@ def execute_c16(sc, params, stats):
     class Marker(Patch):
         def get_asm(self, ctx):
             seen.append(ctx)
+            if sc.get("tail_section"):
+                stats["knob.tail_section"] += 1
+                return "nop\n.data\n.byte 17, 34\n"
             return "nop"
 
     patch = Marker(constraints)
@@ -1626,13 +1643,17 @@ def shrink_candidates(prop, sc):
 
     if sc.get("debug_log"):
         yield mod(lambda c: c.pop("debug_log"))
+    if sc.get("tail_section"):
+        yield mod(lambda c: c.pop("tail_section"))
     # signals
     if sc["signals"]:
         yield mod(lambda c: c.__setitem__("signals", []))
         for i in range(len(sc["signals"])):
             yield mod(lambda c, i=i: c["signals"].pop(i))
+    if sc["func"].get("amnesia"):
+        yield mod(lambda c: c["func"].pop("amnesia"))
     if sc["func"].get("history"):
-        yield mod(lambda c: c["func"].__setitem__("history", False))
+        yield mod(lambda c: (c["func"].__setitem__("history", False), c["func"].pop("amnesia", None)))
     if sc.get("prior_conv_edit"):
         yield mod(lambda c: c.pop("prior_conv_edit"))
     if sc["func"].get("site"):
